@@ -80,6 +80,10 @@ func (g *FnGen) Generate() (err error) {
 		for i, c := range g.C.Requires {
 			g.assumeClause("true", c.E, g.ctxEntry(), fmt.Sprintf("requires:%d", i))
 		}
+		for i, c := range g.C.Shape {
+			g.assumeClause("true", c.E, g.ctxEntry(), fmt.Sprintf("shape:%d", i))
+			g.assumptions["input shape assumed for every obligation of "+g.name+" (guaranteed by the dependency's typing, not checked at callers): "+c.Src] = true
+		}
 		if len(g.C.Domain) > 0 {
 			var parts []string
 			for _, c := range g.C.Domain {
@@ -680,7 +684,7 @@ func (g *FnGen) doFieldAddr(x *ssa.FieldAddr) {
 		g.vals[x] = Val{T: g.opaqueAddr(&p), S: sortRef, Go: resT, Place: &p}
 		return
 	}
-	g.oblige("nil", g.siteNames[x], g.curGuard, not("(= "+base.T+" nil)"), "field access through nil pointer", x.Pos())
+	g.oblige(nilKind(x.X), g.siteNames[x], g.curGuard, not("(= "+base.T+" nil)"), "field access through nil pointer", x.Pos())
 	key, _ := g.D.fieldKey(st, x.Field)
 	p := &Place{Key: key, Base: base.T, Elem: ft}
 	g.vals[x] = Val{T: g.opaqueAddr(p), S: sortRef, Go: resT, Place: p}
@@ -1013,7 +1017,7 @@ func (g *FnGen) doUnOp(x *ssa.UnOp) {
 			g.checkGuardedRead(x, v.Place.Key, v.Place.Base, x.Pos())
 		}
 		if v.Place == nil {
-			g.oblige("nil", g.siteNames[x], g.curGuard, not("(= "+v.T+" nil)"), "load through nil pointer", x.Pos())
+			g.oblige(nilKind(x.X), g.siteNames[x], g.curGuard, not("(= "+v.T+" nil)"), "load through nil pointer", x.Pos())
 		}
 		r := g.load(g.st, v)
 		r = g.mkVal(g.def(x.Name(), r.S, r.T), x.Type())
